@@ -631,6 +631,7 @@ func (p *sparser) primary() (*SExpr, error) {
 // contract files
 
 type Clause struct {
+	Free  bool // free ensures: assumed by callers, not checked in the callee (listed as an assumption)
 	Label string
 	Props []string // optional restriction
 	Expr  *SExpr
@@ -642,6 +643,7 @@ type Clause struct {
 type LoopSpec struct {
 	Ordinal    int
 	Invariants []*Clause
+	Exits      []*Clause // assertions that must hold whenever the loop is left (any exit edge)
 }
 
 type PredDef struct {
@@ -746,7 +748,7 @@ var clauseKeywords = map[string]bool{
 	"props": true, "requires": true, "ensures": true, "modifies": true, "loop": true,
 	"invariant": true, "trusted": true, "inline": true, "mode": true, "params": true,
 	"maypanic": true, "fdef": true, "pure": true, "noalloc": true, "set": true, "reason": true,
-	"uses": true, "lemma": true, "smtaxiom": true, "smtdef": true, "guarded": true, "assert": true,
+	"uses": true, "lemma": true, "exit": true, "free_ensures": true, "smtaxiom": true, "smtdef": true, "guarded": true, "assert": true,
 }
 
 type rawLine struct {
@@ -903,7 +905,7 @@ func ParseSpecFile(path, pkgPath string) (*SpecFile, error) {
 					return nil, fail(err)
 				}
 				cur.Ghost = append(cur.Ghost, gs)
-			case "requires", "ensures", "invariant":
+			case "requires", "ensures", "invariant", "exit", "free_ensures":
 				cl, err := parseClause(rest)
 				if err != nil {
 					return nil, fail(err)
@@ -914,6 +916,14 @@ func ParseSpecFile(path, pkgPath string) (*SpecFile, error) {
 					cur.Requires = append(cur.Requires, cl)
 				case "ensures":
 					cur.Ensures = append(cur.Ensures, cl)
+				case "free_ensures":
+					cl.Free = true
+					cur.Ensures = append(cur.Ensures, cl)
+				case "exit":
+					if curLoop == nil {
+						return nil, fail(fmt.Errorf("exit outside loop"))
+					}
+					curLoop.Exits = append(curLoop.Exits, cl)
 				case "invariant":
 					if curLoop == nil {
 						return nil, fail(fmt.Errorf("invariant outside loop"))
